@@ -304,6 +304,7 @@ protected:
     AssertionStack frames;
 
     sstat status = s_Undef; // The status of the last solver call
+    bool modelComputed = false; // The theory solvers computed their models in the last solver call
 
 private:
     std::unique_ptr<Theory> theory;
